@@ -463,11 +463,41 @@ func instrMayFollow(a, b ssa.Instruction) bool {
 	return reachableBlock(a.Block(), b.Block())
 }
 
-// returnsOf lists the Return instructions.
+// retVal resolves result i of a Return: in functions with defers go/ssa spills results into a local
+// (`*r = v; rundefers; t = *r; return t`); the value stored last in the same block is what is returned.
+func retVal(r *ssa.Return, i int) ssa.Value {
+	v := r.Results[i]
+	ld, ok := v.(*ssa.UnOp)
+	if !ok || ld.Op != token.MUL {
+		return v
+	}
+	al, ok := ld.X.(*ssa.Alloc)
+	if !ok {
+		return v
+	}
+	var last ssa.Value
+	for _, in := range r.Block().Instrs {
+		if in == ssa.Instruction(ld) {
+			break
+		}
+		if st, ok := in.(*ssa.Store); ok && st.Addr == ssa.Value(al) {
+			last = st.Val
+		}
+	}
+	if last != nil {
+		return last
+	}
+	return v
+}
+
+// isRecoverBlock: the synthetic block that returns the named results after a recovered panic.
+func isRecoverBlock(b *ssa.BasicBlock) bool { return b.Parent().Recover == b }
+
+// returnsOf lists the Return instructions (the synthetic recover block excluded).
 func returnsOf(fn *ssa.Function) []*ssa.Return {
 	var out []*ssa.Return
 	allInstrs(fn, func(in ssa.Instruction) {
-		if r, ok := in.(*ssa.Return); ok {
+		if r, ok := in.(*ssa.Return); ok && !isRecoverBlock(r.Block()) {
 			out = append(out, r)
 		}
 	})
